@@ -59,7 +59,13 @@ NCtx(cx) == Prod(Dims(cx), 1)
 RECURSIVE DigitAt(_, _, _)
 DigitAt(d, c, j) == IF j = 1 THEN c % d[1] ELSE DigitAt(Tail(d), c \div d[1], j - 1)
 
+\* a context given literally (ABI call checks): group with foreign arrays, position of the application call
+RawCtx(cx) == [gi |-> cx.rawctx.gi, group |-> cx.rawctx.group,
+               glob |-> [CurrentApplicationID |-> U(<<3, 233>>), Round |-> U(<<42>>)],
+               args |-> <<>>, gs |-> <<>>, has |-> 1]
+
 MkCtx(cx, c) ==
+  IF "rawctx" \in DOMAIN cx THEN RawCtx(cx) ELSE
   LET d == Dims(cx)
       na == Len(cx.args)
       args == IF "raw" \in DOMAIN cx THEN cx.raw         \* application arguments given literally (ABI checks)
